@@ -398,6 +398,43 @@ def sc_helpers(layout, opt):
     if fn == "krige_get_mean":
         kr = gs.krige.Ordinary(model, cp, cv)
         return {"cond_pos": cp, "cond_val": cv}, (lambda: kr.get_mean())
+    if fn == "upscaling":
+        # point volumes as the caller's array, every dimension, the function itself and through SRF (twice)
+        d = opt.get("dim", 2)
+        md = gs.Gaussian(dim=d, var=0.8, len_scale=1.5)
+        pos = lay(np.array([POS2[0], POS2[1], VAL])[:d], layout)
+        pv = lay(0.1 + 0.05 * np.arange(6), layout)
+        srf = gs.SRF(md, seed=3, mode_no=8, upscaling="coarse_graining")
+
+        def call():
+            v1 = np.array(gs.field.upscaling.var_coarse_graining(md, pv))
+            f1 = np.array(srf(pos, point_volumes=pv, seed=3))
+            f2 = np.array(srf(pos, point_volumes=pv, seed=3))
+            v2 = np.array(gs.field.upscaling.var_coarse_graining(md, pv))
+            return {"__same__": [("var_coarse_graining repeated with the same point volumes", v1, v2), ("SRF with point volumes repeated", f1, f2)]}
+
+        return {"pos": pos, "point_volumes": pv}, call
+    if fn == "mesh_twice":
+        # two realisations written to one meshio mesh under the same data name: the array handed out (and
+        # stored) by the first call is not overwritten by the second
+        import meshio
+
+        pts = lay([[0.0, 0.0, 0.0], [1.0, 0.0, 0.0], [1.0, 1.0, 0.0], [0.0, 1.0, 0.0], [2.0, 0.5, 0.0]], layout)
+        mesh = meshio.Mesh(pts, [("triangle", np.array([[0, 1, 2], [0, 2, 3], [1, 4, 2]]))])
+        srf = gs.SRF(model, mode_no=8)
+
+        def call():
+            held = []
+            for where in ("points", "centroids"):
+                a = srf.mesh(mesh, points=where, name="fld", seed=1, store="real_0")
+                c, st = np.array(a, copy=True), srf["real_0"]
+                srf.mesh(mesh, points=where, name="fld", seed=2, store="real_1")
+                held.append((where + ": array returned by the first mesh() call after the second", np.array(a), c))
+                held.append((where + ": field stored by the first mesh() call after the second", np.array(st), c))
+                held.append((where + ": field stored under the first name", np.array(srf["real_0"]), c))
+            return {"__same__": held}
+
+        return {"mesh_points": pts}, call
     raise KeyError(fn)
 
 
@@ -423,6 +460,9 @@ def case_args(case):
     roles, call = SCEN[case["entry"]](case["layout"], case["opt"])
     extra = {"entry": case["entry"], "layout": case["layout"]}
     res = run_scenario(r, roles, call, extra)
+    if isinstance(res, dict) and "__same__" in res:
+        for what, a, b in res["__same__"]:
+            r.true(what + ": unchanged", bool(np.array_equal(a, b)), info={"now": np.asarray(a).ravel()[:4].tolist(), "was": np.asarray(b).ravel()[:4].tolist()}, **extra)
     if case["opt"].get("fn") == "model_init" and res is not None and case["layout"] != "ro":
         for a in roles.values():
             a *= 1.7  # the caller goes on using its arrays
@@ -454,6 +494,8 @@ def arg_cases(tier):
     add("array_transform", fn=["discrete", "discrete_equal", "discrete_expl", "discrete_wrapper", "boxcox", "zinnharvey", "force_moments", "lognormal", "uniform", "arcsin", "uquad"])
     add("model_functions", fn=["variogram", "covariance", "correlation", "cor", "vario_nugget", "cov_nugget", "cov_spatial", "vario_spatial", "cor_spatial", "isometrize", "anisometrize", "spectrum", "spectral_density", "spectral_rad_pdf", "cov_yadrenko", "vario_yadrenko", "cor_yadrenko"], rot=[True, False])
     add("public_helpers", fn=["get_scaling", "generator_call", "generator_nugget", "post_field", "krige_set_condition", "krige_get_mean", "model_init"], nugget=[0.0, 0.3])
+    add("public_helpers", fn=["upscaling"], dim=[1, 2, 3])
+    add("public_helpers", fn=["mesh_twice"])
     add("geometry", fn=["latlon2pos", "pos2latlon", "generate_grid", "generate_st_grid", "rotated_main_axes"])
     out = []
     for c in cases:
